@@ -126,6 +126,19 @@ func init() {
 		Models:      []string{"as C02"},
 	})
 	reg(&PropSpec{
+		ID: "C18", Prefix: "vh_C18_", MaxSteps: 20000000,
+		Quick:    Tier{Params: map[string]int{"kwpos": 2, "spellings": 2}},
+		Thorough: Tier{Params: map[string]int{"kwpos": 12, "spellings": 3}},
+		Bounds: []string{
+			"worlds: root definitions A,B and a sub-directory definition C with reference slots (targets A,B,C,D; cross-document cycles included), a third document with D",
+			"cache states: none (reference run), fresh empty cache, cache pre-loaded with a symbolic subset of the three documents (one solver bit per document), cache reused from an expansion of definition B of the same root; entry point ExpandSchemaWithBasePath on definition A",
+			"observed: result bytes, success, loader call log (each URL at most once per expansion, pre-loaded URLs never)",
+		},
+		Outside:     []string{"longer reuse sequences, ExpandSchema with a typed root (C10)", "id-scoped pseudo documents"},
+		Assumptions: []string{"the caller-supplied cache is a plain map-backed ResolutionCache"},
+		Models:      []string{"as C02"},
+	})
+	reg(&PropSpec{
 		ID: "C11", Prefix: "vh_C11_",
 		Quick:    Tier{Params: map[string]int{"segs": 2, "seg_len": 2}},
 		Thorough: Tier{Params: map[string]int{"segs": 3, "seg_len": 2}},
